@@ -873,18 +873,29 @@ def r01_9_badi_year_lengths(ctx: Ctx) -> RuleResult:
         return next(iter(vals)) if len(vals) == 1 else None
 
     first_std = M.fold_class_const(c.name, mangle(c.name, "__FIRST_YEAR_OF_STANDARDIZED_CALENDAR"))
-    pre_std_by_gregorian_leap = isinstance(first_std, int) and "_is_leap_year(year + cls.__GREGORIAN_YEAR_OF_FIRST_BADI_YEAR)" in unparse(fa.node).replace("_BadiYearMonthDayCalculator", "")
+    # the pre-standardisation arm asks the ISO calculator whether a Gregorian year is leap: the year it asks about is evaluated from
+    # the code (locals inlined), whatever the expression looks like; the predicate itself is proved by R02.2
+    from ..absint import State
+    from ..kit import inline_locals
+
+    leap_calls = [n for n in own_nodes(fa.node) if isinstance(n, ast.Call) and isinstance(n.func, ast.Attribute) and n.func.attr == "_is_leap_year" and len(n.args) == 1]
+    pre_std_by_gregorian_leap = isinstance(first_std, int) and len(leap_calls) == 1 and "iso" in unparse(leap_calls[0].func)
+    leap_arg = inline_locals(fa.node, leap_calls[0].args[0]) if pre_std_by_gregorian_leap else None
+
+    def asked_year(y: int) -> int | None:
+        v = interp(ctx).ev(leap_arg, State({fa.value_params[0].arg: Iv(y, y)}), fa, 0)
+        return int(v.lo) if isinstance(v, Iv) and v.const else None
     nr = {y: ev(fn, y) for y in range(1, 1001)}
     for y in range(1, 1000):
         rr.inst(nontrivial=False)
         a = ev(fa, y)
         if a is None and pre_std_by_gregorian_leap and y < first_std:
-            gy = y + g0  # the pre-standardisation arm: 5 days iff the Gregorian year y + base is leap (predicate proved by R02.2)
-            a = 5 if (gy % 4 == 0 and (gy % 100 != 0 or gy % 400 == 0)) else 4
+            gy = asked_year(y)  # the pre-standardisation arm: 5 days iff the Gregorian year asked about is leap
+            a = None if gy is None else 5 if (gy % 4 == 0 and (gy % 100 != 0 or gy % 400 == 0)) else 4
         rr.states += 2
         if a is None or nr[y] is None or nr[y + 1] is None:
             rr.fail(c.qual, f"year {y}: table readers not evaluable", ctx.loc(fa))
-            break
+            continue
         by_dates = (datetime.date(g0 + y, 3, nr[y + 1]) - datetime.date(g0 + y - 1, 3, nr[y])).days
         if by_dates == 361 + a:
             rr.ok()
